@@ -63,14 +63,13 @@ class Info:
         for m in db.masters.values():
             if not m.primary and m.kind == "aq":
                 base = m.element.split("(")[0]
-                if base in ("H", "O") and m.species in ("H+", "H2O"):
+                if base in ("H", "O") and m.species in (db.masters["H"].species, db.masters["O"].species):
                     continue      # H(1) / O(-2): carried by the H and O totals, the program reports no separate total
                 self.valence.setdefault(base, []).append(m.element)
         ms_names = {m.species for m in db.masters.values()}
         self.aq = []
         self.comp, self.z, self.alk, self.vcomp, self.need, self.redox, self.rx = {}, {}, {}, {}, {}, {}, {}
         self.skipped_species = []
-        mcomp = {}
         for e in db.aqueous():
             nm = e.name
             try:
@@ -81,20 +80,7 @@ class Info:
                 if undefined:
                     self.skipped_species.append(nm)
                     continue
-                # manual: "normally both the stoichiometry and the mass-action expression of a species are determined from
-                # the chemical equation"; -mole_balance gives the stoichiometry explicitly.  (For a balanced equation this
-                # is the formula of the species; for -no_check equations, e.g. polysulfides, it is not.)
-                comp = {}
-                if e.mole_balance:
-                    for k, v in phrq_db.parse_formula(e.mole_balance, valence=True)[0].items():
-                        comp[k.split("(")[0]] = comp.get(k.split("(")[0], 0.0) + v
-                else:
-                    for j, nu in exp_s.items():
-                        if j not in mcomp:
-                            mcomp[j] = phrq_db.parse_formula(j)[0]
-                        for k, v in mcomp[j].items():
-                            comp[k] = comp.get(k, 0.0) + nu * v
-                comp = {k: v for k, v in comp.items() if abs(v) > 1e-12 and k != "e"}
+                comp = db.stoichiometry(nm)       # from the equation (manual), not from the formula
                 need = set(k for k in comp if k not in ("H", "O"))
                 for j in exp_s:
                     need |= set(k for k in phrq_db.parse_formula(j)[0] if k not in ("H", "O", "e"))
@@ -111,6 +97,13 @@ class Info:
             except (phrq_db.DbError, KeyError) as ex:
                 self.skipped_species.append(nm)
         self.master_names = ms_names
+        self.hion = db.masters["H"].species            # H+ (H3O+ in iso.dat)
+        self.isotopes = "isotopes" in db.blocks
+        # lowest lattice temperature: 0 C, or the first point of the LLNL temperature grid (the program refuses lower)
+        self.t_low = 0
+        if db.llnl and db.llnl.get("temperatures"):
+            self.t_low = max(0, min(db.llnl["temperatures"]))
+        self.temps = [t if t != 0 else self.t_low for t in TEMPS]
         self.ph = []
         self.pneed, self.prx = {}, {}
         for p in db.phases.values():
@@ -210,7 +203,7 @@ def build_input(case, inf):
         L.append(" -activities " + " ".join(ch))
     for ch in chunks(ph):
         L.append(" -saturation_indices " + " ".join(ch))
-    items = ["TC", "TK", "MU", "CHARGE_BALANCE", "ALK", 'TOT("water")', 'LA("H2O")', 'LA("H+")', 'LA("e-")', 'MOL("H2O")']
+    items = ["TC", "TK", "MU", "CHARGE_BALANCE", "ALK", 'TOT("water")', 'LA("H2O")', 'LA("%s")' % inf.hion, 'LA("e-")', 'MOL("H2O")']
     layout = {"glob": len(items)}
     for t in tot_names:
         items.append('TOT("%s")' % t)
@@ -277,12 +270,12 @@ def judge(case, inf, layout, head, row):
     tag = "pH=%s T=%s pe=%s conc=%s elements=%s%s" % (case["pH"], case["T"], case["pe"], case.get("conc"), "+".join(case["elements"]),
                                                      " adjust=" + case["adjust"] if case.get("adjust") else "")
     # activities available for mass action
-    la = {"H2O": LAW, "H+": LAH, "e-": LAE}
+    la = {"H2O": LAW, inf.hion: LAH, "e-": LAE}
     present = {}
     for nm, d in S.items():
         if nm in ("H2O", "e-"):
             continue
-        if d["la"] > -99.0 and d["mol"] > 1e-98:
+        if d["la"] != -99.99:                          # exact sentinel of LA() for a species that is not in the model
             present[nm] = d
             la[nm] = d["la"]
     sep_el = {v.split("(")[0] for v in layout["sep"]}
@@ -290,7 +283,7 @@ def judge(case, inf, layout, head, row):
     # (iii-a) pH read-outs
     nrel[0] += 2
     if abs(sel("pH") + LAH) > TOL_LOG:
-        prob("pH-vs-logaH", "readout", "pH", "selected-output pH %r but -LA(\"H+\") = %r (%s)" % (sel("pH"), -LAH, tag))
+        prob("pH-vs-logaH", "readout", "pH", "selected-output pH %r but -LA(\"%s\") = %r (%s)" % (sel("pH"), inf.hion, -LAH, tag))
     if abs(sel("pe") + LAE) > TOL_LOG:
         prob("pe-vs-logae", "readout", "pe", "selected-output pe %r but -LA(\"e-\") = %r (%s)" % (sel("pe"), -LAE, tag))
 
@@ -357,6 +350,8 @@ def judge(case, inf, layout, head, row):
                 continue
             terms = [inf.vcomp[nm].get(t, 0.0) * m for nm, m in mol.items() if inf.vcomp[nm].get(t)]
         elif t in ("H", "O"):
+            if inf.isotopes:
+                continue      # ISOTOPES databases: after speciation the H and O totals are reduced to the major isotope
             terms = [inf.comp[nm].get(t, 0.0) * m for nm, m in mol_w.items() if nm in inf.comp and inf.comp[nm].get(t)]
         else:
             terms = [inf.comp[nm].get(t, 0.0) * m for nm, m in mol.items() if inf.comp[nm].get(t)]
@@ -459,7 +454,7 @@ def species_cases(inf, tier):
     out = []
     for els, redox in sets.items():
         pes = [4, -2, 12] if redox else [4]
-        for (conc, ph, T, pe) in core.product(CONC, PH, TEMPS, pes):
+        for (conc, ph, T, pe) in core.product(CONC, PH, inf.temps, pes):
             if not els and conc != CONC[0]:
                 continue
             out.append({"db": inf.name, "lat": "A", "elements": list(els), "conc": conc, "pH": ph, "T": T, "pe": pe})
@@ -531,7 +526,7 @@ def run(tier):
         latt = []
         a, nsets = species_cases(inf, tier)
         latt.append(("A species: %d distinct element sets of %d aqueous species x conc %s x pH %s x T %s x pe 4 (+ -2, 12 for redox-sensitive sets)" % (
-            nsets, len(inf.aq), CONC, PH, TEMPS), a))
+            nsets, len(inf.aq), CONC, PH, inf.temps), a))
         if tier == "thorough" or name == "phreeqc.dat":
             latt.append(("B pairs: all unordered pairs of %d elements x pH %s x T %s" % (len(inf.elements), PAIR_PH, PAIR_T), pair_cases(inf, tier)))
             latt.append(("C adjusted: %d elements x {pH charge, Cl charge, C at CO2(g) -3.5, valence states entered separately} x pH %s x T [25, 60]" % (
